@@ -31,6 +31,9 @@ type c02Case struct {
 	Ops []op `json:"ops"`
 	// Hooks installs the cron state hooks (as sys.System does).
 	Hooks bool `json:"hooks,omitempty"`
+	// Typing != 0: the facts are written in Go-typed form (nested core.Map,
+	// []string, []map[string]interface{}, [][]string by the bits).
+	Typing int `json:"typing,omitempty"`
 }
 
 var c02Ids = []string{"", "f1", "f2", "f3", "f4", "f5"}
@@ -91,6 +94,9 @@ func genC02(t *rapid.T) c02Case {
 		}
 	}
 	c.Hooks = rapid.IntRange(0, 2).Draw(t, "hooks") == 0
+	if rapid.IntRange(0, 2).Draw(t, "typed?") == 0 {
+		c.Typing = rapid.IntRange(1, 4095).Draw(t, "typing")
+	}
 	return c
 }
 
@@ -102,6 +108,7 @@ func runC02(c c02Case) *vlib.Outcome {
 		if c.Hooks {
 			w.withCronHooks()
 		}
+		w.typing = c.Typing
 		if _, err := w.open("L"); err != nil {
 			o.Fail("OPEN", "cannot create location: %v", err)
 			return o
